@@ -196,10 +196,10 @@ def cases(tier, cfg):
                 continue
             if cplx and (group not in ("core1", "core2") or e.fl or e.boolean or e.kinds & {"abs", "sqrt", "/TT", "/Ts", "/sT"}):
                 continue     # complex: the ring operations only (division and abs are not lane-exact by construction)
-            if tier == "quick" and not main and group in ("math", "cmp", "core3"):
+            if tier == "quick" and not main and group in ("math", "cmp", "core3") and not e.t.startswith(("min(", "max(")):
                 continue
-            if tier == "quick" and t in ("f64", "i64") and group not in ("core1", "cmp"):
-                continue
+            if tier == "quick" and t in ("f64", "i64") and group not in ("core1", "cmp") and not e.t.startswith(("min(", "max(")):
+                continue      # (min/max have their own specialisation per vector type: kept for every type)
             if not base and group == "math":
                 continue
             ss = sizes
